@@ -11,7 +11,7 @@ import prog  # noqa
 import progcommon as P  # noqa
 from lib import h2f  # noqa
 
-MODULES = ["InovesaModel.Props.C11", "InovesaModel.Props.TiePhysics", "InovesaModel.Props.TiePS"]
+MODULES = ["InovesaModel.Props.C11", "InovesaModel.Props.TiePhysics", "InovesaModel.Props.TiePS", "InovesaModel.Props.TieH5Read"]
 LEVEL = "proof"
 
 
@@ -167,6 +167,51 @@ def seam_witness():
     return dict(n=24, N=32, T=0.25, outstep=1, h5save=1, cur=[0.002], imp="free", renorm=4, shx=0, shy=0, pad=2, it=2, dt=4), 0.75, 0.5
 
 
+def reader_cases(chk, count, tag):
+    """the real HDF5File::readPhaseSpace in-process on files whose record r holds the value r+1, against the model
+    `readStart`: which record is loaded for which StartDistStep, which files are refused"""
+    import corr
+    harness = lib.build_harness()
+    rng = lib.Rng(chk.seed, "C11/reader/" + tag)
+    recs = []
+    for k in range(count):
+        rank = rng.choice([3, 3, 3, 3, 4, 4, 4, 2, 5, 0])
+        nrec = rng.choice([0, 1, 2, 3, 5, 7])
+        nb = rng.choice([1, 1, 2, 3]) if rank in (4, 5) else 1
+        n = rng.choice([4, 6, 8])
+        step = rng.choice([-1, -1, 0, nrec - 1, -nrec, rng.randint(-nrec - 4, nrec + 4), rng.randint(-nrec - 4, nrec + 4)])
+        cid = "r%d" % k
+        recs.append(dict(id=cid, rank=rank, nrec=nrec, nb=nb, n=n, step=step,
+                         optext="h5read %s %d %d %d %d %d\nrun\n" % (cid, rank, nrec, nb, n, step)))
+    optexts = {r["id"]: r["optext"] for r in recs}
+    A, B, mism, drift, san = corr.run_correspondence(chk, harness, optexts, "reader_" + tag)
+    fails = []
+    for r in recs:
+        la = [l for l in A.get(r["id"], []) if l.split()[0] in ("txt", "ints")]
+        usable = r["rank"] in (3, 4) and r["nrec"] > 0 and r["nb"] == 1
+        what = "start file of rank %d with %d records of %d bunch(es), StartDistStep %d" % (r["rank"], r["nrec"], r["nb"], r["step"])
+        if not la:
+            fails.append((r, what + ": no answer from the reader"))
+        elif not usable:
+            if la[0] != "txt refused":
+                fails.append((r, what + ": not refused (%s)" % la[0]))
+        else:
+            t = la[0].split()
+            if t[0] != "ints":
+                fails.append((r, what + ": refused although it is a usable single-bunch file"))
+                continue
+            g, lo, hi = int(t[1]), int(t[2]), int(t[3])
+            if g != r["n"] or lo != hi:
+                fails.append((r, what + ": loaded grid size %d, values of records %d..%d (one record of size %d expected)" % (g, lo, hi, r["n"])))
+            elif 0 <= r["step"] < r["nrec"] and lo != r["step"]:
+                fails.append((r, what + ": loaded record %d" % lo))
+            elif -r["nrec"] <= r["step"] < 0 and lo != r["nrec"] + r["step"]:
+                fails.append((r, what + ": loaded record %d (negative steps count from the end)" % lo))
+            elif not 0 <= lo < r["nrec"]:
+                fails.append((r, what + ": loaded record %d does not exist" % lo))
+    return recs, optexts, mism, san, fails
+
+
 def replay_text(cfg, what):
     return "# C11: %s\n# configuration (leg lengths T1, T2, renormalisation, chosen start record): %r\n" % (what, cfg)
 
@@ -186,6 +231,19 @@ def run(chk):
     if wf:
         fails.append((dict(wcfg, T1=wT1, T2=wT2), wf))
     ref = refusal_cases(exe, h5)
+    rrecs, ropt, rmism, rsan, rfails = reader_cases(chk, 60 if quick else 1500, "main")
+    chk.cov["reader"] = {"cases": len(rrecs), "mismatches": len(rmism), "oracle_failures": len(rfails),
+                         "usable": sum(1 for r in rrecs if r["rank"] in (3, 4) and r["nrec"] > 0 and r["nb"] == 1),
+                         "no_record": sum(1 for r in rrecs if r["nrec"] == 0), "multi_bunch": sum(1 for r in rrecs if r["nb"] > 1),
+                         "other_rank": sum(1 for r in rrecs if r["rank"] not in (3, 4))}
+    if rsan:
+        chk.violation("sanitizer/abort in the start-file reader: " + rsan[:300], "# harness aborted\n" + rsan + "\n" + "".join(ropt.values()),
+                      tag="reader_sanitizer")
+    for r, f in rfails[:1]:
+        chk.violation("C11 violated: " + f, "# C11 start-file reader: %s\n%s" % (f, r["optext"]), tag="reader_" + r["id"])
+    if rmism and not rfails and not rsan:
+        ok = False
+        det["broken"] = "correspondence of the start-file reader (model readStart vs HDF5File::readPhaseSpace): case %s: %s" % rmism[0]
     chk.cov["evaluations"] = evals + 4
     chk.cov["distinct_nontrivial"] = len({repr(c) for c in cfgs}) + 4
     chk.cov["rule"] = ("leg1(T1) -> leg2(T2) started from leg1's results file vs one run over T1+T2 (single bunch, random "
@@ -202,7 +260,7 @@ def run(chk):
         chk.violation("C11 violated: " + f, replay_text(cfg, f), tag="oracle")
     for f in ref[:1]:
         chk.violation("C11 violated: " + f, "# C11 refusal of unusable start files: %s\n" % f, tag="refusal")
-    if not ok and not fails and not ref:
+    if not ok and not fails and not ref and not rfails:
         cfgs2, evals2, fails2, _ = explore(chk, exe, h5, 20, "search")
         chk.cov["search"] = {"cases": evals2, "oracle_failures": len(fails2)}
         if fails2:
